@@ -77,7 +77,7 @@ Tys == << <<"Value", "">>, <<"Header", "">>, <<"ProtectedHeader", "">>, <<"CoseK
 Expect(ty, reg) ==
   LET r == FromSlice(ty, reg, w) IN
   IF r.ok THEN [accept |-> TRUE, val |-> <<r.x>>, err |-> "", pinerr |-> FALSE, errprop |-> "C13", judge |-> TRUE]
-  ELSE [accept |-> FALSE, val |-> <<>>, err |-> r.err, pinerr |-> (r.err \in {"ExtraneousData", "DecodeFailed"}), errprop |-> "C13",
+  ELSE [accept |-> FALSE, val |-> <<>>, err |-> r.err, diag |-> DiagOf(r), text |-> ErrText(r), pinerr |-> (r.err \in {"ExtraneousData", "DecodeFailed"}), errprop |-> "C13",
         judge |-> (r.err # "GAP")]      \* f16/f32 outside the widening tables: the model leaves the outcome open
 
 Emit ==
